@@ -197,8 +197,9 @@ def admits_set(cs, v):
     if v[3]: return any(c[1][3] and c[1][:3] == v[:3] for c in cs)
     return True
 def alt_comparators(a):
-    """None when every token of the alternative is dropped"""
+    """None when every token of the alternative is dropped; an alternative in which nothing is written is `*` (README: "" := * := >=0.0.0)"""
     if a[0] == 'hyphen': return desugar_hyphen(a[1], a[2])
+    if not a[1]: return [('>=', V(0, 0, 0))]
     cs = [c for c in a[1] if c[0] != 'garbage']
     if not cs: return None
     return [d for c in cs for d in desugar(*c)]
